@@ -402,7 +402,7 @@ def siblings(ctx, fx):
         fn = ctx.fn(f)
         pb = [e for _, e in fn.events(is_call(name="push_back"))]
         ok = len(pb) == 1 and "pow2(i)" in S(pb[0])
-        loops = [b for b in fn.blocks.values() if (b.get("term") or {}).get("cls") == "ForStmt"]
+        loops = [b for b in fn.blocks.values() if (b.get("term") or {}).get("cls") in ("ForStmt", "WhileStmt")]
         ok = ok and len(loops) == 1 and (loops[0]["term"].get("text") or "").replace(" ", "") in ("i<=LOG2_MAX_SIZE", "i<=Pow_2_BlockHeap::LOG2_MAX_SIZE")
         ctx.ob("C09.sibling.size-class", f["qn"], ok, "heap table does not hold one heap of size 2^i for every i <= LOG2_MAX_SIZE",
                fn.loc(), "table", fnkey=f["key"])
